@@ -551,6 +551,7 @@ func vfAclModelName() string {
 func TestVerifC06Acl(t *testing.T) { vfXSearch(t, "C06", "acl", vfAclModelName()) }
 func TestVerifC07Acl(t *testing.T) { vfXSearch(t, "C07", "acl", vfAclModelName()) }
 func TestVerifC08Acl(t *testing.T) { vfXSearch(t, "C08", "acl-direct", vfAclModelName()) }
+func TestVerifC14Acl(t *testing.T) { vfXSearch(t, "C14", "acl", vfAclModelName()) }
 func TestVerifC08AclFault(t *testing.T) { vfXSearch(t, "C08", "acl-fault", vfAclModelName()+"-fault") }
 func TestVerifC06AclFault(t *testing.T) { vfXSearch(t, "C06", "acl-fault", vfAclModelName()+"-fault") }
 func TestVerifC13AclFault(t *testing.T) { vfXSearch(t, "C13", "acl-fault", vfAclModelName()+"-fault") }
